@@ -108,10 +108,12 @@ def run_kani_group(prop, obls, tier, seed, jobs):
                                       f"{r.covers_sat}/{r.covers_total}", "cbmc_s": r.time_s},
                           detail=r.as_dict(), clause=o.get("clause"), site=o.get("site"))
             if r.status == "fails":
-                test, pout = kani_engine.concrete_playback(s, o["id"], harness_timeout=tmo)
+                # one more CBMC run with --concrete-playback=inplace, then the generated unit test is
+                # executed natively (dev profile) with `cargo kani playback`
+                native = kani_engine.native_playback(s, o["id"], max(3 * tmo, 1800))
+                test = native.get("test_source") if native else None
                 os.makedirs(os.path.join(REPLAYS, prop), exist_ok=True)
                 rp = os.path.join(REPLAYS, prop, o["id"] + ".json")
-                native = kani_engine.native_playback(s, o["id"], tmo) if test else None
                 with open(rp, "w") as f:
                     json.dump({"property": prop, "obligation": o["id"], "engine": "kani",
                                "statement": o["what"], "failed_checks": r.failed_checks,
